@@ -33,6 +33,7 @@ class SimNet:
         self.f6_pm = knobs.get('f6_pm', 0)
         self.captured = []          # every datagram handed to sendto by sc3
         self.tap = None             # callable(src, dst, data, now)
+        self.recv_log = []          # (now, port, data) at every recvfrom return
 
     # -- registration
     def register(self, addr, endpoint):
@@ -188,6 +189,8 @@ class SimSocket:
             k._switch()
         data, src = self.inbox.pop(0)
         k.log('recv', me.idx, len(data))
+        self.net.recv_log.append(
+            (k.now, self.addr[1] if self.addr else None, data))
         return data[:bufsize], src
 
     def close(self):
